@@ -154,8 +154,8 @@ theorem wf_filter (reg : List Entry) (h : WF reg) (p : Entry → Bool) : WF (reg
 theorem wf_deregister (reg : List Entry) (h : WF reg) (p : Name) : WF (deregister reg p) :=
   wf_filter reg h _
 
-theorem wf_register (reg : List Entry) (h : WF reg) (p : Name) (hp : p.NoSlash) (m : Bool) (i w s : Int) :
-    WF (register reg p m i w s) := by
+theorem wf_register (cfg : Cfg) (reg : List Entry) (h : WF reg) (p : Name) (hp : p.NoSlash) (m : Bool) (i w s : Int) :
+    WF (register cfg reg p m i w s) := by
   unfold register
   simp only
   split
@@ -171,10 +171,108 @@ theorem wf_register (reg : List Entry) (h : WF reg) (p : Name) (hp : p.NoSlash) 
       · exact hf.keyed a ha b hb hab
       · simp only [List.mem_singleton] at hb; subst hb
         have := (List.mem_filter.mp ha).2
-        simp [hasKey, hab] at this
+        simp [hasKey, entryOf, hab] at this
       · simp only [List.mem_singleton] at ha; subst ha
         have := (List.mem_filter.mp hb).2
-        simp [hasKey, ← hab] at this
+        simp [hasKey, entryOf, ← hab] at this
       · simp only [List.mem_singleton] at ha hb; rw [ha, hb]
+
+/-! ### the registry follows the registration history -/
+
+theorem find_filter_other (reg : List Entry) (k k' : Bytes) (h : k' ≠ k) :
+    (reg.filter (fun e => !hasKey k e)).find? (hasKey k') = reg.find? (hasKey k') := by
+  induction reg with
+  | nil => rfl
+  | cons a as ih =>
+    cases hk : hasKey k a with
+    | true =>
+      have hk' : hasKey k' a = false := by
+        simp only [hasKey, beq_iff_eq] at hk
+        simp only [hasKey, hk, beq_eq_false_iff_ne, ne_eq]
+        exact fun e => h e.symm
+      simp [List.filter_cons, hk, List.find?_cons, hk', ih]
+    | false => simp [List.filter_cons, hk, List.find?_cons, ih]
+
+theorem find_filter_self (reg : List Entry) (k : Bytes) :
+    (reg.filter (fun e => !hasKey k e)).find? (hasKey k) = none := by
+  rw [List.find?_eq_none]
+  intro x hx
+  have := (List.mem_filter.mp hx).2
+  simpa using this
+
+theorem entryFor_register (cfg : Cfg) (hc : cfg.unchangedChecksType = true) (reg : List Entry) (hw : WF reg)
+    (p : Name) (hp : p.NoSlash) (m : Bool) (i w s : Int) (k' : Bytes) :
+    entryFor (register cfg reg p m i w s) k' =
+      if k' = canon p then some (entryOf p m i w s) else entryFor reg k' := by
+  unfold register
+  simp only
+  by_cases hearly : (!m && unchanged cfg reg (canon p) i w s) = true
+  · simp only [hearly, if_true]
+    simp only [Bool.and_eq_true, Bool.not_eq_true', unchanged] at hearly
+    obtain ⟨hm, hu⟩ := hearly
+    by_cases hk : k' = canon p
+    · subst hk
+      simp only [if_true, entryFor]
+      cases hf : reg.find? (hasKey (canon p)) with
+      | none => simp [hf] at hu
+      | some e =>
+        simp only [hf, hc, Bool.not_true, Bool.false_or, Bool.and_eq_true, beq_iff_eq, Bool.not_eq_true'] at hu
+        obtain ⟨⟨⟨h1, h2⟩, h3⟩, h4⟩ := hu
+        have hmem := List.mem_of_find?_eq_some hf
+        have hkey : canon e.pat = canon p := by
+          have := List.find?_some hf
+          simpa [hasKey] using this
+        have hpat : e.pat = p := canon_inj _ _ (hw.noSlash e hmem) hp hkey
+        obtain ⟨ep, ef⟩ := e
+        obtain ⟨a, b, c, d⟩ := ef
+        simp only at h1 h2 h3 h4 hpat
+        subst hm hpat h1 h2 h3 h4
+        rfl
+    · simp [hk]
+  · simp only [hearly, Bool.false_eq_true, if_false, entryFor, List.find?_append]
+    by_cases hk : k' = canon p
+    · subst hk
+      rw [find_filter_self]
+      simp [hasKey, entryOf]
+    · rw [find_filter_other reg (canon p) k' hk]
+      have : hasKey k' (entryOf p m i w s) = false := by
+        simp only [hasKey, entryOf, beq_eq_false_iff_ne, ne_eq]
+        exact fun e => hk e.symm
+      simp [hk, this]
+
+theorem entryFor_deregister (reg : List Entry) (p : Name) (k' : Bytes) :
+    entryFor (deregister reg p) k' = if k' = canon p then none else entryFor reg k' := by
+  unfold deregister entryFor
+  by_cases hk : k' = canon p
+  · subst hk; simp [find_filter_self]
+  · simp [hk, find_filter_other reg (canon p) k' hk]
+
+theorem wf_applyOp (cfg : Cfg) (reg : List Entry) (hw : WF reg) (op : RegOp) (hp : op.pat.NoSlash) :
+    WF (applyOp cfg reg op) := by
+  cases op with
+  | reg p m i w s => exact wf_register cfg reg hw p hp m i w s
+  | dereg p => exact wf_deregister reg hw p
+
+theorem entryFor_applyOp (cfg : Cfg) (hc : cfg.unchangedChecksType = true) (reg : List Entry) (hw : WF reg)
+    (op : RegOp) (hp : op.pat.NoSlash) : entryFor (applyOp cfg reg op) = specOp (entryFor reg) op := by
+  funext k
+  cases op with
+  | reg p m i w s => exact entryFor_register cfg hc reg hw p hp m i w s k
+  | dereg p => exact entryFor_deregister reg p k
+
+/-- After ANY history of registrations, re-registrations and deregistrations, the registry holds for
+    every key exactly the last registration (nothing after a deregistration). -/
+theorem registry_follows_history (cfg : Cfg) (hc : cfg.unchangedChecksType = true) (h : List RegOp) :
+    ∀ reg, WF reg → (∀ op ∈ h, op.pat.NoSlash) →
+      entryFor (runOps cfg reg h) = specRun (entryFor reg) h ∧ WF (runOps cfg reg h) := by
+  induction h with
+  | nil => intro reg hw _; exact ⟨rfl, hw⟩
+  | cons op rest ih =>
+    intro reg hw hns
+    have hop := hns op (by simp)
+    have := ih (applyOp cfg reg op) (wf_applyOp cfg reg hw op hop) (fun o ho => hns o (List.mem_cons_of_mem _ ho))
+    simp only [runOps, specRun, List.foldl_cons] at this ⊢
+    rw [entryFor_applyOp cfg hc reg hw op hop] at this
+    exact this
 
 end Hv.Settings
